@@ -17,6 +17,9 @@ set / add / replace / append / prepend / cas: one _store_cmd call with the verb 
 key, value, expire, flags; cas tokens are decimal.
 delete / delete_many / incr / decr / touch / flush_all: the single command handed to _misc_cmd equals the documented format with
 the noreply marker iff the call does not wait, for bytes and str keys, int / bool / non-int arguments.
+cache_memlimit: exactly one _fetch_cmd exchange whose verb is 'cache_memlimit' and whose only token is the decimal rendering of the
+caller's integer (bool as 0/1), with no key prefix / exptime / cas, returning True; a non-integer is rejected before any exchange; and
+_fetch_cmd run for that verb writes 'cache_memlimit <t1> ...\\r\\n' once and consumes exactly the reply (any terminal line).
 """
 import z3
 from . import clientmodel as cm
@@ -27,7 +30,7 @@ ASSUMPTIONS = ["Client.encoding is ascii or utf-8 (ASCII-compatible); other code
                "integer arguments are within the protocol's ranges (flags < 2^32, exptime signed 64-bit, delta/cas < 2^64)",
                "mixed bytes/str keys within one dict are covered element-wise (each item independently)"]
 NOT_COVERED = ["raw_command (sends caller bytes by design)", "HashClient multi-key atomicity (excluded by the statement)",
-               "command text of stats/cache_memlimit (not yet mechanised; version / quit / shutdown are)",
+               "command text of stats (its arguments are caller tokens written through the key path; cache_memlimit / version / quit / shutdown are mechanised)",
                "uniqueness of the strict parse (lemma strict-parse of DESIGN 4.2 is not mechanised; token classes are proved)",
                "the empty prefixed key: recorded known finding, re-confirmed by witness replay each run"]
 BUDGET = {"quick": 40, "thorough": 120}
@@ -51,6 +54,10 @@ def build(E, tier):
         cm.verify_public_fetch_many(E)
         cm.verify_set_many(E)
         cm.verify_public_admin(E)
+    if only in (None, "memlimit"):
+        cm.verify_cache_memlimit(E)
+    if only == "memlimit":
+        return
     cm.verify_delete_many(E)
 
 
@@ -255,6 +262,45 @@ out(sent=m.sent, raised=raised)
         sent = (obs.get("sent") or {}).get("bytes", "")
         if sent or obs.get("raised") != "input":
             return {"reproduced": True, "call": "Client.%s('k', expire=None)" % meth, "input": {"expire": None}, "observed": obs}
+        return {"reproduced": False, "searched": obs}
+    if ob.meta.get("memlimit_kind"):
+        code = r'''
+from fakesock import FakeModule
+from pymemcache.client.base import Client
+from pymemcache.exceptions import MemcacheIllegalInputError
+bad = None; n = 0
+ints = [0, 1, 5, 64, 2**63 - 1, True, False] + [payload["model"]]
+for prefix in (b"", b"p:"):
+    for ign in (False, True):
+        for v in ints + ["5", None, 1.5, b"5"]:
+            m = FakeModule([b"OK\r\n"])
+            c = Client(("h", 1), socket_module=m, key_prefix=prefix, ignore_exc=ign)
+            n += 1
+            try:
+                r = c.cache_memlimit(v); raised = None
+            except MemcacheIllegalInputError:
+                r, raised = None, "input"
+            except Exception as e:
+                r, raised = None, repr(e)
+            if isinstance(v, int):
+                ok = raised is None and r is True and m.sent == b"cache_memlimit %d\r\n" % int(v)
+            else:
+                ok = raised == "input" and m.sent == b""
+            if not ok:
+                bad = dict(memlimit=repr(v), key_prefix=repr(prefix), ignore_exc=ign, sent=repr(m.sent), raised=raised, result=repr(r)); break
+        if bad: break
+    if bad: break
+out(cases=n, failing=bad)
+'''
+        mv = (res.model or {}).get("memlimit")
+        try:
+            mv = int(mv)
+        except Exception:
+            mv = 7
+        obs = rp.run_real(code, {"model": mv})
+        from pyvc.replay import failing_of
+        if failing_of(obs):
+            return {"reproduced": True, "call": "Client(...).cache_memlimit(v) with a fake socket answering OK", "input": failing_of(obs), "cases_tried": obs.get("cases")}
         return {"reproduced": False, "searched": obs}
     if "r" not in _rc:
         _rc["r"] = rp.run_real(REPLAY, {}, timeout=600)
